@@ -1,0 +1,18 @@
+//go:build verif
+
+// Contracts for package edf, read by the verifier in /verif (govc). Comment-only: this file
+// declares nothing and is compiled only with -tags verif.
+package edf
+
+// C16: zero-annotation safety sweep over the leaf decoders (every index and slice expression in
+// bounds in its own integer type, no nil dereference, no failed type assertion, no division by zero),
+// bit-precise.
+//@ sweep decode[A-Z]* props C16 except decodeType* decodeAny decodeError requires state != nil
+
+// The atom cache and the atom mapping negotiated by the handshake hold atoms only (A-CACHE: built
+// by makeDecodeAtomCache / the registration API; not verified here).
+//@ spec func atomTable(m *sync.Map) bool = m == nil || (forall k any :: smHas(m, k) ==> typeis(smVal(m, k), gen.Atom))
+//@ func readAtom
+//@   props C16
+//@   requires state != nil
+//@   assume atomTable(state.options.AtomCache) && atomTable(state.options.AtomMapping)
